@@ -9,6 +9,7 @@ import (
 	"encoding/gob"
 	"fmt"
 	"net"
+	"net/rpc"
 	"os"
 	"path/filepath"
 	"sort"
@@ -92,7 +93,10 @@ type instance struct {
 	// rendering equals want or a generous cap expires, and returns the last rendering
 	observeWant func(g *gate2.Gate, want string) (string, error)
 	valueOf     func(o gate2.Op) (tla.Value, bool) // non-string values written by "w" operations
-	fin         func()
+	// remote (optional): what a remote party obtains from the resource right now, rendered like mres.render.  It is
+	// called in the middle of attempts; the answer must never contain anything of the attempt in flight
+	remote func() (string, error)
+	fin    func()
 }
 
 const nInputs = 12
@@ -543,7 +547,38 @@ func build(kind, name string, env *wenv) *instance {
 			}
 			return fmt.Sprint(v.AsNumber()), nil
 		}
-		in.fin = func() { gate2.AsyncClose{ArchetypeResource: res}.Close() }
+		// a scripted peer: a plain net/rpc client on the resource's own listener that gossips nothing (nil state, so
+		// nothing is merged into the resource) and keeps what the resource answers
+		var peer *rpc.Client
+		in.remote = func() (string, error) {
+			if peer == nil {
+				conn, err := net.DialTimeout("tcp", addr, 5*time.Second)
+				if err != nil {
+					return "", envError{err}
+				}
+				peer = rpc.NewClient(conn)
+			}
+			var reply resources.ReceiveValueResp
+			call := peer.Go("CRDTRPCReceiver.ReceiveValue", resources.ReceiveValueArgs{}, &reply, nil)
+			select {
+			case <-call.Done:
+				if call.Error != nil {
+					return "", envError{call.Error}
+				}
+			case <-time.After(15 * time.Second):
+				return "", envError{fmt.Errorf("gossip RPC timed out")}
+			}
+			if reply.Value == nil {
+				return "", fmt.Errorf("gossip reply carries no state")
+			}
+			return fmt.Sprint(reply.Value.Read().AsNumber()), nil
+		}
+		in.fin = func() {
+			if peer != nil {
+				peer.Close()
+			}
+			gate2.AsyncClose{ArchetypeResource: res}.Close()
+		}
 	default:
 		panic("c01: unknown kind " + kind)
 	}
@@ -572,6 +607,9 @@ func tupleStrings(v tla.Value) (out []string) {
 }
 
 type envProblem struct{ what string }
+
+// envError marks an error of the environment (dial, RPC transport): the run is discarded, never judged.
+type envError struct{ error }
 
 func (e *wenv) port() int {
 	for i := 0; i < 3000; i++ {
